@@ -120,9 +120,13 @@ func wantPathsOf(keys []string, from int32, h int, dedup bool) []uint64 {
 // checkMaxStr: FromStr32 / PathOf / PathsOf on a string of 2^28 bytes (8*len = 2^31 does not fit an int32) or a few
 // bytes less; the oracle works from the description of that string.
 func checkMaxStr(from int32, w, cut int) *vk.Failure {
-	if from < 0 || w < 0 || w > 32 || cut < 0 || cut > 64 || int64(from)+int64(w) > math.MaxInt32 {
+	if from < 0 || w < 0 || w > 32 || cut < 0 || cut > 64 {
 		return nil
 	}
+	// from+w beyond MaxInt32 cannot be said to FromStr32 (it takes the end bit as an int32), but PathOf and PathsOf
+	// take (start bit, height): "every string s, start bit from >= 0 and width w in [0,32]" includes the last bits of
+	// a 2^28-byte string
+	endFits := int64(from)+int64(w) <= math.MaxInt32
 	s := gen.MaxString(cut)
 	avail := int64(8*len(s)) - int64(from)
 	k := min(max(avail, 0), int64(w))
@@ -140,14 +144,16 @@ func checkMaxStr(from int32, w, cut int) *vk.Failure {
 	var gtxt string
 	var gps []uint64
 	if f := vk.Try("FromStr32/PathOf/PathsOf on a "+what, func() {
-		gk, gv = bitmap.FromStr32(s, from, from+int32(w))
+		if endFits {
+			gk, gv = bitmap.FromStr32(s, from, from+int32(w))
+		}
 		gp = bmtree.PathOf(s, from, int32(w))
 		gtxt = bmtree.PathStr(gp)
 		gps = bmtree.PathsOf([]string{s, s, "A"}, from, int32(w), true)
 	}); f != nil {
 		return f
 	}
-	if int64(gk) != k || gv != v {
+	if endFits && (int64(gk) != k || gv != v) {
 		return vk.Failf("fromstr32", "FromStr32(%s) = (%d, %#x), want (%d, %#x)", what, gk, gv, k, v)
 	}
 	wp := model.PathWord(prefix, int(k), w)
@@ -437,7 +443,7 @@ func TestLast(t *testing.T) {
 		L8 := int64(8 * (gen.MaxStrLen - cut))
 		for _, w := range []int{0, 1, 7, 8, 9, 31, 32} {
 			for _, from := range []int64{0, 1, 7, 8, 9, 63, 64, 8 * (gen.MaxStrLen / 2), 8*(gen.MaxStrLen/2) - 3, L8 - 104, L8 - 72, L8 - 71, L8 - 40, L8 - 39, L8 - 33, L8 - 32, L8 - 31, L8 - 9, L8 - 8, L8 - 7, L8 - 1, L8, L8 + 1, L8 + 7} {
-				if from >= 0 && from+int64(w) <= math.MaxInt32 {
+				if from >= 0 && from <= math.MaxInt32 {
 					checker.Run(t, Case{Op: "maxstr", From: int32(from), W: w, Cut: cut, Class: "grid-maximum-string"})
 				}
 			}
